@@ -1050,6 +1050,30 @@ def handler (fn : String) : Option Handler :=
           if !nearR N.normSq 1 then "skip non-unit-normal" else
           cutOracle m (fun p => N.dot p - bi) (colourFloat n bias eps) (q eps) (meshScale m bi) o
         | none => "skip bad-args" }
+  | "tm_cut_pos" => some {
+      model := fun a => run (do let m ← pmeshIn; let pos ← piso3; let n ← pv3; let bias ← pf; let eps ← pf; pend
+                                pure (fcut (Cut.splitUncapped m.pts m.tris pos n bias eps))) a
+      oracle := fun a o => match run (do let m ← pmeshIn; let pos ← piso3; let n ← pv3; let bias ← pf; let eps ← pf; pend; pure (m, pos, n, bias, eps)) a with
+        | some (m, pos, n, bias, eps) =>
+          if !(m.pts.all finite3 && finite3 n && finite3 pos.t && FloatIO.isFinite bias && FloatIO.isFinite eps) then "skip nonfinite-input" else
+          let N := q3 n; let bi := q bias; let M := qiso3 pos
+          if q eps < 0 then "skip negative-epsilon" else
+          if !nearR N.normSq 1 then "skip non-unit-normal" else
+          if !unitQ pos then "skip non-unit-quaternion" else
+          -- the halves are expressed in the mesh's local frame; they are judged against the *world* plane through the pose
+          let (la, lb) := planeToLocal pos n bias
+          cutOracle m (fun p => N.dot (M.act p) - bi) (colourFloat la lb eps) (q eps) (meshScale m bi + maxAbs3 M.t) o
+        | none => "skip bad-args" }
+  | "tm_cut_canon" => some {
+      model := fun a => run (do let m ← pmeshIn; let ax ← pnat; let bias ← pf; let eps ← pf; pend
+                                if h : ax < 3 then pure (fcut (Cut.canonicalSplitUncapped m.pts m.tris ⟨ax, h⟩ bias eps)) else pure "panic") a
+      oracle := fun a o => match run (do let m ← pmeshIn; let ax ← paxis; let bias ← pf; let eps ← pf; pend; pure (m, ax, bias, eps)) a with
+        | some (m, ax, bias, eps) =>
+          if !(m.pts.all finite3 && FloatIO.isFinite bias && FloatIO.isFinite eps) then "skip nonfinite-input" else
+          let bi := q bias
+          if q eps < 0 then "skip negative-epsilon" else
+          cutOracle m (fun p => p.get ax.val - bi) (colourFloat (ithAxis ax) bias eps) (q eps) (meshScale m bi) o
+        | none => "skip bad-args" }
   | "tm_split_pos" => some {
       model := fun _ => some "oracle-only"
       oracle := fun a o => match run (do let m ← pmeshIn; let pos ← piso3; let n ← pv3; let bias ← pf; let eps ← pf; pend; pure (m, pos, n, bias, eps)) a with
